@@ -322,28 +322,33 @@ def parse_cb(line):
 
 def oracle_c05(impl_lines):
     """every delivery of well-formed items yields exactly the tokens Proto.v
-    says (one per item, in order)"""
+    says (one per item, in order); items cut across two reads (with other use of
+    the terminal between them) yield them over the two callbacks"""
     fails = []
     cases, order = vc.split_cases(impl_lines)
     for cid in order:
-        expect, wf, armed = [], True, False
+        expect, wf, armed, parts = [], True, False, 1
         pending = None
         for l in cases[cid]:
             if l.startswith("> # ITEMS"):
                 expect = []
-                wf = l.strip().endswith("wf=1")
+                wf = " wf=1" in l
+                parts = 2 if l.strip().endswith("split") else 1
                 armed = True
             elif l.startswith("> # EXPECT "):
                 expect.append(l[len("> # EXPECT "):].strip())
             elif l.startswith("> T ") and " recv " in l:
-                pending = (list(expect), wf, armed)
+                if pending and pending[3] > 0:
+                    continue
+                pending = [list(expect), wf, armed, parts, []]
                 armed = False
-            elif l.startswith("CB ") and pending:
-                exp, w, a = pending
-                pending = None
-                if a and w:
-                    got = parse_cb(l)
-                    if got != exp:
+            elif l.startswith("CB ") and pending and pending[3] > 0:
+                pending[4] += parse_cb(l)
+                pending[3] -= 1
+                if pending[3] == 0:
+                    exp, w, a, _n, got = pending
+                    pending = None
+                    if a and w and got != exp:
                         k = next((i for i in range(max(len(got), len(exp))) if i >= len(got) or i >= len(exp) or got[i] != exp[i]), 0)
                         fails.append((cid, "item %d decoded as [%s], the protocol says [%s] (%d tokens for %d items)" % (
                             k, got[k] if k < len(got) else "<nothing>", exp[k] if k < len(exp) else "<nothing>", len(got), len(exp))))
@@ -359,8 +364,29 @@ def oracle_c06(impl_lines):
     for cid in order:
         toks, recvs, cbs, streams = {}, {}, {}, {}
         cur = None
-        for l in cases[cid]:
-            if l.startswith("> T ") and " recv " in l:
+        late = set()          # terminals whose client re-arms before it reads its tokens
+        batch = None          # callbacks of one recvq, in the order they finished
+
+        def close_batch():
+            if batch is not None and cur is not None:
+                for tk in (reversed(batch) if cur in late else batch):
+                    toks.setdefault(cur, []).extend(tk)
+
+        for l in cases[cid] + ["> END"]:
+            if l.startswith("> "):
+                close_batch()
+                batch = None
+            if l.startswith("> T ") and " arm2" in l:
+                late.add(l.split()[2])
+                cur = None
+            elif l.startswith("> T ") and " recvq " in l:
+                t = l.split()
+                cur = t[2]
+                n = int(t[4])
+                recvs[cur] = recvs.get(cur, 0) + n
+                streams[cur] = streams.get(cur, "") + "".join(x for x in t[5:5 + n] if x != "-")
+                batch = []
+            elif l.startswith("> T ") and " recv " in l:
                 t = l.split()
                 cur = t[2]
                 recvs[cur] = recvs.get(cur, 0) + 1
@@ -369,7 +395,10 @@ def oracle_c06(impl_lines):
                 cur = None
             elif l.startswith("CB ") and cur is not None:
                 cbs[cur] = cbs.get(cur, 0) + 1
-                toks.setdefault(cur, []).extend(parse_cb(l))
+                if batch is not None:
+                    batch.append(parse_cb(l))
+                else:
+                    toks.setdefault(cur, []).extend(parse_cb(l))
         for t in recvs:
             if cbs.get(t, 0) != recvs[t]:
                 fails.append((cid, "terminal %s: %d deliveries produced %d callback invocations" % (t, recvs[t], cbs.get(t, 0))))
@@ -462,6 +491,69 @@ def oracle_c20(impl_lines):
                         if not any(rn in norm for rn in seq_renderings(init, cmd, args)):
                             fails.append((cid, "key %d reported with a control sequence (initiator %d, arguments %s, command %d) that does not occur in the input received" % (key, init, ",".join(args), cmd)))
     return fails
+
+
+def xterm_mods(code):
+    m = code - 1
+    return (1 if m & 1 else 0) + (2 if m & 4 else 0) + (4 if m & 2 else 0) + (8 if m & 8 else 0)
+
+
+def oracle_keyvalues(impl_lines):
+    """what a key sequence's numeric parameters mean, from their VALUES (however they
+    are spelled - leading zeros included): CSI n ~ with n in the key table is that
+    key (never a bare control sequence); a cursor key's repeat count is max(n,1)
+    (saturating at INT_MAX); the second parameter is the xterm modifier code"""
+    fails = []
+    cases, order = vc.split_cases(impl_lines)
+    INT_MAX = 2147483647
+
+    def val(hx):
+        if hx == "-":
+            return None
+        try:
+            txt = bytes.fromhex(hx).decode()
+        except (ValueError, UnicodeDecodeError):
+            return None
+        return int(txt) if txt.isdigit() else None
+
+    for cid in order:
+        for l in cases[cid]:
+            if not l.startswith("CB "):
+                continue
+            for tk in parse_cb(l):
+                a = tk.split()
+                if a[0] == "VK" and a[4] == "C":
+                    key, mods, rep, seq = int(a[1]), int(a[2]), int(a[3]), a[5:]
+                elif a[0] == "CS":
+                    key, mods, rep, seq = None, None, None, a[1:]
+                else:
+                    continue
+                init, cmd, meta, ext, nargs = int(seq[0]), int(seq[1]), int(seq[2]), int(seq[3]), int(seq[4])
+                args = seq[5:5 + nargs]
+                if init != 91 or ext != 0:
+                    continue
+                vals = [val(x) for x in args]
+                if any(v is None for v in vals) and args != ["-"]:
+                    continue
+                n0 = vals[0] if vals and vals[0] is not None else None
+                n1 = vals[1] if len(vals) > 1 else None
+                wantmods = ((xterm_mods(n1) if n1 is not None and 1 <= n1 <= 16 else None), 8 if meta else 0)
+                if cmd == 126 and n0 in KEYPAD_KEY and len(args) <= 2:
+                    if key != KEYPAD_KEY[n0]:
+                        fails.append((cid, "CSI %s ~ (value %d) reported as %s, the protocol says key %d" % (args[0], n0, "key %d" % key if key is not None else "a bare control sequence", KEYPAD_KEY[n0])))
+                    elif wantmods[0] is not None and mods != (wantmods[0] | wantmods[1]):
+                        fails.append((cid, "CSI %s ~: modifier parameter %d reported as modifiers %d, expected %d" % (";".join(args), n1, mods, wantmods[0] | wantmods[1])))
+                elif cmd in CSI_KEY and key is not None and len(args) <= 2:
+                    wantrep = min(max(n0 or 1, 1), INT_MAX)
+                    if rep != wantrep:
+                        fails.append((cid, "cursor key with count parameter %s (value %s) reported with repeat count %d, expected %d" % (args[0], n0, rep, wantrep)))
+                    elif wantmods[0] is not None and mods != (wantmods[0] | wantmods[1]):
+                        fails.append((cid, "cursor key: modifier parameter %d reported as modifiers %d, expected %d" % (n1, mods, wantmods[0] | wantmods[1])))
+    return fails
+
+
+def oracle_c05s(impl_lines):
+    return oracle_c05(impl_lines) + oracle_keyvalues(impl_lines)
 
 
 def oracle_c18(impl_lines):
@@ -693,7 +785,7 @@ def oracle_c07(impl_lines):
     return oracle_c05(impl_lines)
 
 
-EXTRA = {"c19": oracle_show, "c16": oracle_c16, "c15": oracle_c15s, "c05": oracle_c05, "c06": oracle_c06, "c20": oracle_c20, "c07": oracle_c07, "c10": oracle_c10, "c17": oracle_c17s, "c16s": oracle_c16s, "c18": oracle_c18}
+EXTRA = {"c19": oracle_show, "c16": oracle_c16, "c15": oracle_c15s, "c05": oracle_c05s, "c06": oracle_c06, "c20": oracle_c20, "c07": oracle_c07, "c10": oracle_c10, "c17": oracle_c17s, "c16s": oracle_c16s, "c18": oracle_c18}
 
 
 def known_for(pid):
